@@ -5,24 +5,32 @@
            withdrawable + sum(agg.Locked) + sum(agg.Pending) = sum(v.Withdrawable) + sum(delegation.Stake);
            effectiveVET = (locked + queued + withdrawable + cooldown) * 1e18 <= balance. *)
 From Coq Require Import List NArith Bool Lia.
-From Verif Require Import Common.Util Staker.Model Staker.Base Staker.Lists Staker.Inv Staker.ProofsStep Staker.ProofsUser Staker.ProofsHist.
+From Verif Require Import Common.Util Staker.Model Staker.Base Staker.Lists Staker.Inv Staker.RList Staker.Inv2 Staker.ProofsStep
+  Staker.ProofsUser Staker.ProofsUser2 Staker.ProofsHist Staker.ProofsEpoch Staker.ProofsAll.
 Import ListNotations.
 Open Scope N_scope.
 
 (* ---- counters = sums, tracked total = counters, balance >= tracked total ---- *)
 
-(* FULL statement (not proved in full): the invariant holds after every history from the initial state *)
-Definition counters_sum_statement : Prop :=
-  forall c d m ops, InvAll (run c (init d m) ops).
+(* along EVERY history — any sequence of add-validation, increase / decrease stake, signal-exit, withdraw, set-online,
+   set-beneficiary, add-delegation (all multipliers), signal-delegation-exit, withdraw-delegation, reward, parameter change,
+   forced donation by any actors, successful or reverted, interleaved with blocks (SyncPOS: the PoA->PoS transition and
+   housekeeping with renewals, the scheduled exit, evictions, activations) — the full invariant holds:
+   Full = WF (lists) /\ Inv1 (VET accounting) /\ InvA /\ Inv2 (auxiliary: idle aggregations, weights, renewal list, exit slots) *)
+Theorem full_invariant c d m ops : exists la lq, Full (run c (init d m) ops) la lq.
+Proof. exact (history_FullInv c d m ops). Qed.
 
-(* proved: the invariant holds initially and is preserved by EVERY user operation (add-validation, increase / decrease
-   stake, signal-exit, withdraw, set-online, set-beneficiary, add-delegation, signal-delegation-exit, withdraw-delegation,
-   reward, parameter change, forced donation), successful or reverted, and by every block that is not an epoch boundary.
-   Missing for the full statement: preservation by the epoch-boundary step (housekeeping renewals / exit / evictions /
-   activations and the PoA->PoS transition) — kept as the explicit premise [epoch_step_preserves]. *)
-Theorem counters_sum_partial c d m ops :
-  epoch_step_preserves c -> InvAll (run c (init d m) ops).
-Proof. intros H. apply run_InvAll; auto. apply InvAll_init. Qed.
+Theorem counters_sum c d m ops : Inv1 (run c (init d m) ops).
+Proof. destruct (history_FullInv c d m ops) as [la [lq H]]. exact (f_1 _ _ _ H). Qed.
+
+(* corollary in money terms: at every point of every history effectiveVET is exactly the sum of what every validation holds
+   (locked + queued + cooldown + withdrawable) plus every delegation's remaining stake, the four counters add up to it,
+   and the contract owns at least that *)
+Theorem tracked_total_along_histories c d m ops :
+  let s := run c (init d m) ops in
+  eff s = (sumf held (vals s) + sumf d_stake (dels s)) * e18 /\ eff s <= bal s /\
+  g_lv s + g_q s + g_wd s + g_cd s = sumf held (vals s) + sumf d_stake (dels s).
+Proof. exact (effective_is_sum_of_holdings _ (counters_sum c d m ops)). Qed.
 
 Theorem counters_sum_initial d m : InvAll (init d m).
 Proof. exact (InvAll_init d m). Qed.
@@ -99,7 +107,9 @@ Example ex_hyps_hold : exists lq, WF (init 7 3) [] lq /\ Inv1 (init 7 3) /\ InvA
 Proof. destruct (InvAll_init 7 3) as [la [lq [H1 [H2 H3]]]]. exists []. split; [|split]; auto.
   constructor; [constructor; cbn; auto; constructor|constructor; cbn; auto; constructor|intros a v H; discriminate]. Qed.
 
-Print Assumptions counters_sum_partial.
+Print Assumptions full_invariant.
+Print Assumptions counters_sum.
+Print Assumptions tracked_total_along_histories.
 Print Assumptions counters_sum_initial.
 Print Assumptions counters_sum_every_user_operation.
 Print Assumptions counters_sum_between_epochs.
